@@ -23,39 +23,8 @@ MODC = "coxeter.shapes.convex_polyhedron"
 
 
 def _cert(chk, name, fkey, pc, code_expr, spec_expr, replay=None):
-    """code_expr == spec_expr  where both are sums over the simplices:
-    first by the Sigma-normal form alone, else by an edge-cancellation certificate"""
-    import time
-    t0 = time.time()
-    diff = sp.sympify(code_expr) - sp.sympify(spec_expr)
-    if sigma.is_zero(diff):
-        o = chk.record(name, fkey, "proved", "sigma-normal-form", goal="identical Sigma-normal forms (S1-S3)")
-        o.time_s = time.time() - t0
-        return o
-    try:
-        D, j = sigma.row_body(diff, PS.K.n)
-    except ValueError as e:
-        return chk.record(name, fkey, "unknown", "sigma", detail=f"not a single sum: {e}")
-    if D == 0:
-        o = chk.record(name, fkey, "proved", "sigma-normal-form", goal="row bodies identical (S1-S3)")
-        o.time_s = time.time() - t0
-        return o
-    A, B, C = PS.row_atoms()
-    A = [a.xreplace({PS.K.k: j}) for a in A]
-    B = [a.xreplace({PS.K.k: j}) for a in B]
-    C = [a.xreplace({PS.K.k: j}) for a in C]
-    ok, resid, anti = sigma.edge_certificate(D, A, B, C)
-    if ok:
-        o = chk.record(name, fkey, "proved", "sigma+edge-certificate",
-                       goal="row difference = g(a,b)+g(b,c)+g(c,a), g antisymmetric")
-        o.time_s = time.time() - t0
-        return o
-    # refuted as a polynomial identity: generic inputs violate it; ask for a witness by replay
-    o = chk.record(name, fkey, "refuted", "sigma+edge-certificate",
-                   detail=f"residual {str(resid)[:300]}", model={}, replay=replay,
-                   goal="row difference = g(a,b)+g(b,c)+g(c,a), g antisymmetric")
-    o.time_s = time.time() - t0
-    return o
+    from .certs import surface_cert
+    return surface_cert(chk, name, fkey, pc, code_expr, spec_expr, PS.K, PS.row_atoms(), replay=replay)
 
 
 def run(chk):
@@ -149,7 +118,7 @@ def run(chk):
         cen, vol = p.value
         for i in range(3):
             # centroid_i * volume  ==  M[x_i]      (volume is the cached M[1] by Inv)
-            _cert(chk, f"centroid:stokes[{'xyz'[i]}]", fk, p.pc, sp.expand(sigma.canon(ex(cen[i]) * ex(vol))),
+            _cert(chk, f"centroid:stokes[{'xyz'[i]}]", fk, p.pc, sigma.cancel_sums(ex(cen[i]) * ex(vol)),
                   PS.solid_moment(COORD[i]), replay=replay_measure("centroid"))
 
     # ---------------------------------------------------------------- inertia tensor about the centroid
